@@ -216,7 +216,7 @@ def make_case(rng, tier):
         if op["k"] == "contract":
             op.update(contract_opts(rng))
     return {"net": net.json(), "tree": tree, "history": hist, "seed": rng.randrange(1 << 30),
-            "final": contract_opts(rng)}
+            "final": contract_opts(rng), "alphabet": rng.choice(gen.ALPHABETS)}
 
 
 def reference(net, arrays, tree):
@@ -251,6 +251,8 @@ def sig(prefix, kind):
 
 
 def run_case(ctx, drv, case, check_model=True):
+    gen.set_alphabet(case.get("alphabet", "ascii"), case.get("seed", 0))
+    ctx.count("alphabet:" + case.get("alphabet", "ascii"))
     net = gen.Net.from_json(case["net"])
     tree = gen.real_tree(ctg, net, case["tree"])
     arrays = c01.int_arrays(net, case["seed"])
